@@ -278,6 +278,11 @@ class MetadataTable:
         self.lookup = {}
         for entry in self.entries:
             item_id = UUID(bytes_le=entry.item_id)
+            if item_id not in self.METADATA_MAP:
+                if entry.is_required:
+                    raise InvalidVirtualDisk(f"Unknown required metadata item: {item_id}")
+                # Optional items we don't know about (e.g. user metadata) can be ignored
+                continue
 
             fh.seek(self.offset + entry.offset)
             value = self.METADATA_MAP[item_id](fh)
